@@ -170,6 +170,22 @@ def loops_rule(prog, rep):
             rep.undecided("LOOPS", fi.short, "entry loop", f"{len(loops)} while loops", fi.loc())
             continue
         lp = loops[0]
+        # what the loop walks over is the token minus exactly its two delimiters: a slice of the token by positions
+        # (string[1:-1]; for a call, from one past the opening bracket to the last character)
+        callees_ = {id(c.func) for c in ast.walk(lp.test) if isinstance(c, ast.Call)}
+        lv_ = [x.id for x in ast.walk(lp.test) if isinstance(x, ast.Name) and id(x) not in callees_]
+        if len(set(lv_)) == 1:
+            inits_ = [st for st in fi.node.body if isinstance(st, ast.Assign) and len(st.targets) == 1 and norm(st.targets[0]) == lv_[0] and st.lineno < lp.lineno]
+            if len(inits_) == 1:
+                iv = inits_[0].value
+                p0_ = fi.params[0]
+                okin = isinstance(iv, ast.Subscript) and norm(iv.value) == p0_ and isinstance(iv.slice, ast.Slice) and iv.slice.step is None and iv.slice.lower is not None and iv.slice.upper is not None
+                if okin:
+                    from ..trace import deep as _deep3
+
+                    lo, up = norm(_deep3(iv.slice.lower, fi)), norm(_deep3(iv.slice.upper, fi))
+                    okin = (lo == "1" or lo.endswith("+ 1")) and up in ("-1", f"len({p0_}) - 1")
+                rep.check(okin, "LOOPS", fi.short, "text between the delimiters", f"{p0_}[1:-1] (a slice by position)", f"the entries are taken as `{norm(iv)[:60]}`: anything but cutting exactly one character at each end (strip() with a character set, replace()) also removes delimiters that belong to the last nested value: `{{\"a\": {{}}}}` no longer parses", fi.loc(inits_[0]))
         sums, _ = summarize(fi=None, body=lp.body, env=Env(fi, None, inline_locals=False))
         bad = []
         for p in sums:
@@ -713,6 +729,7 @@ def arity_rule(prog, rep):
 
 
 VARIANTS = [
+    ("B dict body taken with strip('{}') (eats the braces of a trailing nested dict)", Q2, "        entries_str = string[1:-1]\n        d: Dict[str, QToken] = {}", "        entries_str = string.strip(\"{}\")\n        d: Dict[str, QToken] = {}", "LOOPS"),
     ("B call refused unless the argument count equals the number of required parameters", Q2, "        call_args = [datastore, namespace]\n", "        import inspect\n        required = [p for p in inspect.signature(functions[self.name]).parameters.values() if p.default is inspect.Parameter.empty]\n        if len(self.args) != len(required) - 2:\n            raise QueryInterpretException(\"invalid amount of arguments\")\n        call_args = [datastore, namespace]\n", "ARITY"),
     ("B QFunction.check drops a character (original defect)", Q2, "        if to_consume != 0:\n            return None, string\n        return string[:i], string[i:]", "        if to_consume != 0:\n            return None, string\n        return string[:i], string[i + 1 :]", "PARTITION"),
     ("B QList.check duplicates a character", Q2, "            prev_char = char\n        return string[:i], string[i:]\n\n\nqtypes", "            prev_char = char\n        return string[:i], string[i - 1 :]\n\n\nqtypes", "PARTITION"),
